@@ -930,7 +930,7 @@ theorem apply_faults (db : DB) (q : Sql) (db' : DB) (r : Res) (h : db.apply q = 
     · simp only [Prod.mk.injEq, Option.some.injEq] at h; rw [← h.1]
     · simp at h
   · split at h
-    · simp only [Prod.mk.injEq, Option.some.injEq] at h; rw [← h.1]
+    · simp only [Prod.mk.injEq, Option.some.injEq] at h; rw [← h.1]; split <;> rfl
     · simp at h
 
 /-- an armed ROLLBACK failure that is a disconnect / an interrupt: met by the error handler's
@@ -955,7 +955,7 @@ theorem apply_listener (db : DB) (q : Sql) (db' : DB) (r : Res) (h : db.apply q 
     · simp only [Prod.mk.injEq, Option.some.injEq] at h; rw [← h.1]
     · simp at h
   · split at h
-    · simp only [Prod.mk.injEq, Option.some.injEq] at h; rw [← h.1]
+    · simp only [Prod.mk.injEq, Option.some.injEq] at h; rw [← h.1]; split <;> rfl
     · simp at h
 
 theorem plainError_poolSame (c : Conn) : PoolSame c c.plainError.1 ∨ RbBad c := by
